@@ -20,6 +20,8 @@ pub enum Case {
     WithPrefixes { tree: A, node: usize },
     /// Xot::clone of a start forest, then an operation on one of the two stores
     XotClone { start: Start, op: Option<Op>, on_clone: bool },
+    /// `clones` times clone_node of one small element, every copy kept; then a clone is removed and another is made
+    CloneWear { clones: u32 },
 }
 
 fn ids_of(a: &A, out: &mut Vec<u32>) {
@@ -218,12 +220,44 @@ fn eval_xot_clone(start: &Start, op: &Option<Op>, on_clone: bool, st: &mut Stats
     fails
 }
 
+/// "made entirely of new nodes", far from the first call: cloning by itself must not use up the arena. Nothing is
+/// removed by the caller until the last step; if clone_node frees a scratch node per call, the slot it frees is worn
+/// (its 16-bit generation stamp saturates, KF-C04-07) and the handle of a clone the caller removed denotes the next
+/// clone.
+fn eval_clone_wear(clones: u32, st: &mut Stats) -> Vec<Fail> {
+    let mut xot = Xot::new();
+    let doc = xot.parse("<a k='v'><b/>t</a>").unwrap();
+    let a = xot.document_element(doc).unwrap();
+    let text = xot.new_text("t");
+    let mut keep = Vec::with_capacity(clones as usize);
+    for _ in 0..clones {
+        keep.push(xot.clone_node(a));
+    }
+    st.evals += clones as u64 + 2;
+    let first = xot.clone_node(text);
+    xot.remove(first).unwrap();
+    let second = xot.clone_node(text);
+    st.bump("clone_wear_lines");
+    let mut fails = vec![];
+    if second == first || !xot.is_removed(first) {
+        fails.push(Fail::new(
+            "clone-wear|handle-of-a-removed-clone-denotes-the-next-clone",
+            format!("after {} clone_node calls on <a k='v'><b/>t</a> (all copies kept): first = clone_node(text); remove(first); second = clone_node(text) gives second == first: {} / is_removed(first): {}", clones, second == first, xot.is_removed(first)),
+        ));
+    }
+    if keep.iter().any(|k| xot.is_removed(*k)) {
+        fails.push(Fail::new("clone-wear|kept-clone-reported-removed", format!("after {} clones", clones)));
+    }
+    fails
+}
+
 pub fn eval(case: &Case) -> Vec<Fail> {
     let mut st = Stats::default();
     match case {
         Case::Clone { start, node, then } => eval_clone(start, *node, then, &mut st),
         Case::WithPrefixes { tree, node } => eval_with_prefixes(tree, *node, &mut st),
         Case::XotClone { start, op, on_clone } => eval_xot_clone(start, op, *on_clone, &mut st),
+        Case::CloneWear { clones } => eval_clone_wear(*clones, &mut st),
     }
 }
 
@@ -356,7 +390,18 @@ pub fn run(tier: Tier) -> i32 {
         });
         stats = stats.merge(res);
     }
-    if let Err(e) = require_nonzero(&stats, &["clones_checked", "mutations_checked", "with_prefixes_cases", "prefixes_inherited", "xot_clone_mutations"]) {
+    // (5) wear: 2^15 + 1 and 2^16 + 1 clones of one element
+    {
+        let mut st = Stats::default();
+        for clones in [32_769u32, 65_537] {
+            let case = Case::CloneWear { clones };
+            for f in eval_clone_wear(clones, &mut st) {
+                st.fail(&case, f);
+            }
+        }
+        stats = stats.merge(st);
+    }
+    if let Err(e) = require_nonzero(&stats, &["clones_checked", "mutations_checked", "with_prefixes_cases", "prefixes_inherited", "xot_clone_mutations", "clone_wear_lines"]) {
         eprintln!("MACHINERY: {}", e);
         return 2;
     }
@@ -366,7 +411,7 @@ pub fn run(tier: Tier) -> i32 {
         "states": states,
         "transitions": transitions,
         "traces_validated_against_impl": transitions,
-        "rule": format!("(1) clone_node of every node (all seven kinds) of every document with <= {} ordinary nodes over 2 element prototypes (attributes, declarations) and text/comment/PI leaves incl. adjacent text, consolidation on and off: clone unattached, equal to the source (merged text when on), made of new handles, source forest untouched; (2) for sources with <= 5 nodes every operation of the mutating alphabet confined to the clone or to the source leaves the other side's read-back identical; (3) clone_with_prefixes of every element of every 2-element layout and of 3-element chains over a reduced menu: clone serialises whenever the source does in place, same names, own declarations kept; (4) Xot::clone of the six BFS starts: same handles denote equal nodes, every operation on one store leaves the other unchanged; states = distinct (start, cloned node) and layouts", tier.pick(4, 5)),
+        "rule": format!("(1) clone_node of every node (all seven kinds) of every document with <= {} ordinary nodes over 2 element prototypes (attributes, declarations) and text/comment/PI leaves incl. adjacent text, consolidation on and off: clone unattached, equal to the source (merged text when on), made of new handles, source forest untouched; (2) for sources with <= 5 nodes every operation of the mutating alphabet confined to the clone or to the source leaves the other side's read-back identical; (3) clone_with_prefixes of every element of every 2-element layout and of 3-element chains over a reduced menu: clone serialises whenever the source does in place, same names, own declarations kept; (4) Xot::clone of the six BFS starts: same handles denote equal nodes, every operation on one store leaves the other unchanged; (5) 32 769 and 65 537 clone_node calls on one small element (copies kept), then clone - remove - clone: the removed handle must not denote the new clone; states = distinct (start, cloned node) and layouts", tier.pick(4, 5)),
     });
     ctx.finish(stats, cov, vec!["hash iteration order observed, not controlled: clone_with_prefixes evaluated twice".into()])
 }
